@@ -4,6 +4,8 @@ usage: python -m vlib.ppci_wasm_run job.json out.jsonl
 
 job : {"target": "python"|"native",
        "modules": [{"id", "desc": wasmgen description, "build": "components"|"bytes", "wasm": base64 (for bytes),
+                    "reuse": instantiate the Module object twice and use the second instance,
+                    "watch_module": report whether instantiate() changed module.to_bytes(),
                     "calls": [{"f","args":[[type,text]],"ret"}], "globals":[{"name","typ"}], "memory": name|None}]}
 out : one json object per line, flushed immediately, so that the parent knows
       what was in flight when a native trap killed this process:
@@ -151,8 +153,15 @@ def main(argv):
             for im in m["desc"]["imports"]:
                 if im["kind"] == "func":
                     imports.setdefault(im["module"], {})[im["name"]] = host[im["name"]]
+            before = module.to_bytes() if m.get("watch_module") else None
+            if m.get("reuse"):
+                # a Module object may be instantiated more than once: the first instance is thrown away
+                wasm.instantiate(module, {k: dict(v) for k, v in imports.items()}, target=target)
             inst = wasm.instantiate(module, imports, target=target)
-            emit({"id": m["id"], "ev": "inst", "v": "ok"})
+            ev = {"id": m["id"], "ev": "inst", "v": "ok"}
+            if before is not None:
+                ev["module_changed"] = module.to_bytes() != before
+            emit(ev)
         except BaseException as e:  # noqa
             emit({"id": m["id"], "ev": "inst", "v": describe(e)})
             emit({"id": m["id"], "ev": "end", "log": log})
